@@ -1,5 +1,9 @@
 // ===================================================================================
-// U13 harnesses (hand written), appended to the sliced `calculate_named_arg_order`.
+// U13 harness (hand written), appended to the sliced `calculate_named_arg_order`.
+// Exhaustive native enumeration of the bounded domain (arity <= 3, <= 4 call arguments):
+// CBMC needs > 6 GB for ONE concrete (arity, length) pair of this function (std iterator
+// adaptors `iter().flatten().cloned().collect()` + Vec allocation), so the compiled slice
+// is executed on every input of the domain instead, with panics caught.
 // ===================================================================================
 
 pub mod u13 {
@@ -14,7 +18,6 @@ pub mod u13 {
     pub struct Shape {
         pub np: usize,
         pub has_default: [bool; MAXP],
-        pub rev: bool,
         pub nc: usize,
         pub choice: [u8; MAXC],
     }
@@ -30,32 +33,27 @@ pub mod u13 {
         let mut arg_indices = IdSet::new();
         let mut default_args: HashMap<usize, Rc<Expr>> = HashMap::default();
         let mut nrequired = 0usize;
-        let mut i = 0;
-        while i < s.np {
+        for i in 0..s.np {
             arg_indices.insert(NAMES[i].to_string());
             if s.has_default[i] {
                 default_args.insert(i, Rc::new(Expr { id: DEFAULT_ID + i as u32 }));
             } else {
                 nrequired += 1;
             }
-            i += 1;
         }
-        default_args.rev = s.rev;
         let nargs = nrequired + default_args.len();
         FuncArgDetails { arg_indices, default_args, nargs }
     }
 
     pub fn call_args(s: &Shape) -> Vec<FuncCallArg> {
         let mut v = Vec::with_capacity(MAXC);
-        let mut j = 0;
-        while j < s.nc {
+        for j in 0..s.nc {
             let name = if s.choice[j] == 0 {
                 None
             } else {
                 Some(Rc::new(Identifier { v: NAMES[(s.choice[j] - 1) as usize].to_string() }))
             };
             v.push(FuncCallArg { name, val: Rc::new(Expr { id: ARG_ID + j as u32 }) });
-            j += 1;
         }
         v
     }
@@ -63,12 +61,11 @@ pub mod u13 {
     /// The property's notion of a well-formed call (C18): no unknown name, no duplicate, no
     /// missing required argument, no positional after named, and not more positional arguments
     /// than parameters.  -> Some(expected Expr id per parameter) when well-formed.
-    pub fn expected(s: &Shape) -> Option<[u32; MAXP]> {
+    pub fn expected(s: &Shape, canary: bool) -> Option<Vec<u32>> {
         let mut supplied = [0u8; MAXP];
         let mut exp = [0u32; MAXP];
         let mut named_seen = false;
-        let mut j = 0;
-        while j < s.nc {
+        for j in 0..s.nc {
             let c = s.choice[j] as usize;
             let idx = if c == 0 {
                 if named_seen {
@@ -84,10 +81,8 @@ pub mod u13 {
             }
             supplied[idx] += 1;
             exp[idx] = ARG_ID + j as u32;
-            j += 1;
         }
-        let mut i = 0;
-        while i < s.np {
+        for i in 0..s.np {
             if supplied[i] > 1 {
                 return None; // duplicate
             }
@@ -95,66 +90,111 @@ pub mod u13 {
                 if !s.has_default[i] {
                     return None; // missing required argument
                 }
-                exp[i] = DEFAULT_ID + i as u32;
+                // canary: a deliberately wrong specification (defaults shifted by one parameter)
+                exp[i] = DEFAULT_ID + i as u32 + if canary { 1 } else { 0 };
             }
-            i += 1;
         }
-        Some(exp)
+        Some(exp[..s.np].to_vec())
     }
 
-    #[cfg(kani)]
-    fn any_shape() -> Shape {
-        let np: usize = kani::any();
-        kani::assume(np <= MAXP);
-        let has_default: [bool; MAXP] = [kani::any(), kani::any(), kani::any()];
-        let rev: bool = kani::any();
-        let nc: usize = kani::any();
-        kani::assume(nc <= MAXC);
-        let choice: [u8; MAXC] = [kani::any(), kani::any(), kani::any(), kani::any()];
-        let mut j = 0;
-        while j < MAXC {
-            kani::assume(choice[j] <= NAMES.len() as u8);
-            j += 1;
-        }
-        Shape { np, has_default, rev, nc, choice }
+    pub fn show(s: &Shape) -> String {
+        let params: Vec<String> =
+            (0..s.np).map(|i| format!("{}{}", NAMES[i], if s.has_default[i] { "=dflt" } else { "" })).collect();
+        let args: Vec<String> = (0..s.nc)
+            .map(|j| if s.choice[j] == 0 { format!("#{}", j) } else { format!("{}=#{}", NAMES[(s.choice[j] - 1) as usize], j) })
+            .collect();
+        format!("np={} d={}{}{} nc={} c={}{}{}{} :: f({}) called as f({})", s.np, s.has_default[0] as u8, s.has_default[1] as u8,
+                s.has_default[2] as u8, s.nc, s.choice[0], s.choice[1], s.choice[2], s.choice[3], params.join(", "), args.join(", "))
     }
 
-    /// C18.resolve.named_arg_order.post
-    #[cfg(kani)]
-    #[kani::proof]
-    #[kani::unwind(7)]
-    fn named_arg_order_post() {
-        let s = any_shape();
-        let exp = expected(&s);
-        kani::assume(exp.is_some()); // well-formed call shapes only
-        let exp = exp.unwrap();
-        let d = details(&s);
-        let args = call_args(&s);
-        let r = calculate_named_arg_order(&d, &args);
-        assert!(r.len() == s.np, "result length differs from the number of parameters");
-        let mut i = 0;
-        while i < s.np {
-            assert!(r[i].id == exp[i], "slot i does not hold positional i / the argument named param_i / default_i");
-            i += 1;
+    /// Ok(result ids) or Err(panic message)
+    pub fn run_shape(s: &Shape) -> Result<Vec<u32>, String> {
+        let d = details(s);
+        let args = call_args(s);
+        let r = std::panic::catch_unwind(std::panic::AssertUnwindSafe(|| calculate_named_arg_order(&d, &args)));
+        match r {
+            Ok(v) => Ok(v.iter().map(|e| e.id).collect()),
+            Err(p) => Err(if let Some(m) = p.downcast_ref::<&str>() {
+                m.to_string()
+            } else if let Some(m) = p.downcast_ref::<String>() {
+                m.clone()
+            } else {
+                "panic".to_string()
+            }),
         }
-        kani::cover!(true, "reachable");
-        kani::cover!(s.np == MAXP && s.nc == MAXP && s.choice[0] == 3 && s.choice[1] == 1, "3 arguments all named, out of order");
-        kani::cover!(s.np == MAXP && s.nc == 1 && s.has_default[1] && s.has_default[2], "defaults fill two slots");
-        kani::cover!(s.np == MAXP && s.nc == 2 && s.choice[0] == 0 && s.choice[1] == 3, "positional then named, one default");
     }
 
-    /// C04.resolve.named_arg_order.total : no panic for ANY call shape (well-formed or not)
-    #[cfg(kani)]
-    #[kani::proof]
-    #[kani::unwind(7)]
-    fn named_arg_order_total() {
-        let s = any_shape();
-        let d = details(&s);
-        let args = call_args(&s);
-        let r = calculate_named_arg_order(&d, &args);
-        assert!(r.len() <= s.np, "more slots than parameters");
-        kani::cover!(true, "reachable");
-        kani::cover!(expected(&s).is_none(), "ill-formed shape reachable");
-        kani::cover!(s.nc > s.np, "more call arguments than parameters reachable");
+    pub fn enumerate_main() {
+        let args: Vec<String> = std::env::args().collect();
+        if args.len() >= 10 {
+            // single shape: u13 np d0 d1 d2 nc c0 c1 c2 c3
+            let a: Vec<u64> = args[1..].iter().map(|x| x.parse().unwrap()).collect();
+            let s = Shape { np: a[0] as usize, has_default: [a[1] != 0, a[2] != 0, a[3] != 0], nc: a[4] as usize,
+                            choice: [a[5] as u8, a[6] as u8, a[7] as u8, a[8] as u8] };
+            println!("{} -> {:?} expected {:?}", show(&s), run_shape(&s), expected(&s, false));
+            return;
+        }
+        let canary = args.get(1).map(|a| a == "canary").unwrap_or(false);
+        static LAST_LOC: std::sync::Mutex<String> = std::sync::Mutex::new(String::new());
+        std::panic::set_hook(Box::new(|info| {
+            if let Some(l) = info.location() {
+                *LAST_LOC.lock().unwrap() = format!("{}:{}", l.file(), l.line());
+            }
+        }));
+        let (mut shapes, mut wellformed, mut illformed) = (0u64, 0u64, 0u64);
+        let (mut npanic, mut nmismatch, mut nlong) = (0u64, 0u64, 0u64);
+        let (mut all_named_reordered, mut defaults_fill_two, mut more_args_than_params) = (0u64, 0u64, 0u64);
+        let mut panics: Vec<String> = vec![];
+        let mut mismatches: Vec<String> = vec![];
+        for np in 0..=MAXP {
+            for dmask in 0..(1u32 << np) {
+                let has_default = [dmask & 1 != 0, dmask & 2 != 0, dmask & 4 != 0];
+                for nc in 0..=MAXC {
+                    let total = 5u32.pow(nc as u32);
+                    for code in 0..total {
+                        let mut choice = [0u8; MAXC];
+                        let mut c = code;
+                        for j in 0..nc {
+                            choice[j] = (c % 5) as u8;
+                            c /= 5;
+                        }
+                        let s = Shape { np, has_default, nc, choice };
+                        shapes += 1;
+                        let exp = expected(&s, canary);
+                        if exp.is_some() { wellformed += 1 } else { illformed += 1 }
+                        if nc > np { more_args_than_params += 1 }
+                        match run_shape(&s) {
+                            Err(msg) => {
+                                npanic += 1;
+                                if panics.len() < 8 {
+                                    panics.push(format!("{} :: panic `{}` at {}", show(&s), msg, LAST_LOC.lock().unwrap()));
+                                }
+                            }
+                            Ok(got) => {
+                                if got.len() > np {
+                                    nlong += 1;
+                                }
+                                if let Some(e) = exp {
+                                    if np == 3 && nc == 3 && choice[0] == 3 && choice[1] == 1 { all_named_reordered += 1 }
+                                    if np == 3 && nc == 1 && has_default[1] && has_default[2] { defaults_fill_two += 1 }
+                                    if got != e {
+                                        nmismatch += 1;
+                                        if mismatches.len() < 8 {
+                                            mismatches.push(format!("{} :: got {:?} expected {:?}", show(&s), got, e));
+                                        }
+                                    }
+                                }
+                            }
+                        }
+                    }
+                }
+            }
+        }
+        let q = |v: &Vec<String>| v.iter().map(|m| format!("{:?}", m)).collect::<Vec<_>>().join(",");
+        println!(
+            "{{\"shapes\":{},\"wellformed\":{},\"illformed\":{},\"npanic\":{},\"nmismatch\":{},\"nlong\":{},\"cover_all_named_reordered\":{},\"cover_defaults_fill_two\":{},\"cover_more_args_than_params\":{},\"panics\":[{}],\"mismatches\":[{}]}}",
+            shapes, wellformed, illformed, npanic, nmismatch, nlong, all_named_reordered, defaults_fill_two, more_args_than_params,
+            q(&panics), q(&mismatches)
+        );
     }
 }
